@@ -248,8 +248,9 @@ def run(rep: Report, tier: str) -> None:
         # float32 is from eager float64 on the same data, in units of float32 epsilon; a compiled run in dtype D may be
         # 64 x amplification x eps(D) away from eager (never less than the flat tolerance used for single ops)
         amp = max([rel_dist(y32, y64)] + [rel_dist(a, b) for a, b in zip(g32, g64)]) / 2.0 ** -23
-        base = 1e-11 if dt0 == torch.float64 else 5e-5
-        tol = max(base, 64.0 * amp * (2.0 ** -52 if dt0 == torch.float64 else 2.0 ** -23))
+        f32_inside = dt0 == torch.float32 or "rms" in label   # U.rms_norm computes its statistic in float32 by design (core.functional.rms), whatever the input dtype
+        base = 1e-6 if (f32_inside and dt0 == torch.float64) else (1e-11 if dt0 == torch.float64 else 5e-5)
+        tol = max(base, 64.0 * amp * (2.0 ** -23 if f32_inside else 2.0 ** -52))
         for mode in modes:
             try:
                 yc, gc = run_mode(mode, dt0)
